@@ -176,9 +176,13 @@ PROPS = {
     ),
     "C15": dict(
         title="FROST: any qualifying signer set signs validly; bad shares are rejected",
-        verus=[], kani=[],
+        verus=[("frost_lists", 60, "quick")], kani=[],
         cases=["frost_*_protocol", "frost_*_corrupt", "frost_*_wire", "frost_*_decode_total"],
-        level="exploration",
+        level_text="The list wire formats are proved by Verus on the text of macro define_frost_core (metavariable-free, shared verbatim by the five ciphersuites), for every byte string and every encoded length: VSSElement::decode_list returns a list exactly when the buffer splits into at least two point encodings that all decode, and the list then holds the decoded points in order; Commitment::decode_list returns a list exactly when the buffer splits into at least two commitment encodings that all decode and whose signer identifiers are strictly increasing as integers (sorted, no duplicate), and the list then holds the decoded commitments in order. Everything else in the statement (trusted split, share verification, the two rounds, aggregate verification under the group key and under the RFC 8032 verifiers, rejection of altered messages): stand-in only (sweep over (t, n), subsets, arrival orders, single-field corruptions, all five suites).",
+        level_note="Point, Scalar, the encoded lengths, point_decode, scalar_cmp_vartime and Commitment::decode are declared (opaque) in the unit; Ordering's derived PartialEq is assumed structural.",
+        assumptions=["per-suite point_decode / scalar_cmp_vartime / Commitment::decode: declared contracts over uninterpreted decoders",
+                     "encoded lengths NE, NS, Commitment::ENC_LEN: any value in 1..=64 / 1..=192 (the five suites use 32, 33, 57 / 98, 96, 171)"],
+        not_reached=["KeySplitter::trusted_split, verify_split, Signer::sign, Coordinator::choose / assemble_signature, verify_signature_share, GroupPublicKey::verify, compute_binding_factors, derive_interpolating_value"],
     ),
     "C14": dict(
         title="X25519 and X448 compute the RFC 7748 functions on all inputs",
@@ -223,7 +227,7 @@ PROPS = {
     ),
     "C19": dict(
         title="Decoding and verification are total: no panic, hang or out-of-bounds",
-        verus=[("recode_naf", None, "quick"), ("p256_decode", None, "quick"), ("secp256k1_decode", 100, "quick"), ("ed25519_decode", 100, "quick"), ("ed448_decode", 100, "quick"), ("jq255e_codec", None, "quick"), ("jq255s_codec", None, "quick"), ("gfsecp256k1_codec", 100, "quick"), ("modint_codec", 60, "quick"), ("ed25519_verify", None, "quick"), ("ed448_verify", None, "quick"), ("p256_verify", None, "quick"), ("secp256k1_verify", None, "quick"), ("jq255e_schnorr", None, "quick"), ("jq255s_schnorr", None, "quick"), ("gls254_schnorr", None, "quick")],
+        verus=[("recode_naf", None, "quick"), ("p256_decode", None, "quick"), ("secp256k1_decode", 100, "quick"), ("ed25519_decode", 100, "quick"), ("ed448_decode", 100, "quick"), ("jq255e_codec", None, "quick"), ("jq255s_codec", None, "quick"), ("frost_lists", 60, "quick"), ("gfsecp256k1_codec", 100, "quick"), ("modint_codec", 60, "quick"), ("ed25519_verify", None, "quick"), ("ed448_verify", None, "quick"), ("p256_verify", None, "quick"), ("secp256k1_verify", None, "quick"), ("jq255e_schnorr", None, "quick"), ("jq255s_schnorr", None, "quick"), ("gls254_schnorr", None, "quick")],
         kani=[("lms::sha256_m32::k_verify_total", "quick", "full-domain")] + _gf255_k(["k_decode_ct_badlen"]),
         cases=["*_decode_strict", "*_decode_ct", "*_decode_opt", "*_decode_reduce", "*_verify", "ecdsa_verify", "*_ecdh", "lms_sig_corrupt", "modint_split", "gfgen_split",
                "hash_script", "x25519_ladder", "x448_ladder", "frost_*_decode_total", "frost_*_corrupt", "*_verify_helper_vartime", "p256_prepare_truncate_short", "ed25519_trunc", "p256_trunc"],
